@@ -1,0 +1,39 @@
+package gtree
+
+import (
+	"bufio"
+	"bytes"
+	"io"
+)
+
+// newLineScanner returns a scanner over the rows read from r.
+//
+// bufio.Scanner hands out what it has buffered when the reader fails, also the beginning of
+// a row that was cut short by that failure ("  - " of "  - child"). Such a remainder is not a row the
+// user wrote; parsing it reported a format error such as "empty text" and hid the read error.
+// The scanner made here drops it, so that Err reports the failure of the reader.
+func newLineScanner(r io.Reader) *bufio.Scanner {
+	fr := &failureRecorder{r: r}
+	sc := bufio.NewScanner(fr)
+	sc.Split(func(data []byte, atEOF bool) (int, []byte, error) {
+		if atEOF && fr.failed && len(data) > 0 && bytes.IndexByte(data, '\n') < 0 {
+			return len(data), nil, nil
+		}
+		return bufio.ScanLines(data, atEOF)
+	})
+	return sc
+}
+
+// failureRecorder remembers that its reader returned an error other than io.EOF.
+type failureRecorder struct {
+	r      io.Reader
+	failed bool
+}
+
+func (fr *failureRecorder) Read(p []byte) (int, error) {
+	n, err := fr.r.Read(p)
+	if err != nil && err != io.EOF {
+		fr.failed = true
+	}
+	return n, err
+}
